@@ -1,3 +1,4 @@
+pub mod backlog;
 pub mod basic;
 pub mod c10;
 pub mod c11;
@@ -21,6 +22,8 @@ pub struct Arm {
     pub c11: bool,
     pub c12: bool,
     pub c13: bool,
+    pub c15: bool,
+    pub c16: bool,
     pub c19: bool,
 }
 
@@ -35,6 +38,8 @@ impl Arm {
             "C11" => a.c11 = true,
             "C12" => a.c12 = true,
             "C13" => a.c13 = true,
+            "C15" => a.c15 = true,
+            "C16" => a.c16 = true,
             "C19" => a.c19 = true,
             _ => {}
         }
@@ -54,12 +59,15 @@ pub struct Watch {
     pub c12: c12::C12,
     pub c13: c13::C13,
     pub c19: basic::C19,
+    pub acct: backlog::Acct,
+    pub hcfg: crate::bcast::HdlCfg,
     /// a monitor other than the armed ones disagreed: its shadow can no longer be trusted
     pub shadow_broken: bool,
+    pub unarmed: Vec<String>,
 }
 
 impl Watch {
-    pub fn new(codec: CodecKind, arm: Arm, timers_in_order: bool) -> Self {
+    pub fn new(codec: CodecKind, arm: Arm, timers_in_order: bool, hcfg: crate::bcast::HdlCfg) -> Self {
         Watch {
             codec,
             arm,
@@ -71,7 +79,10 @@ impl Watch {
             c12: c12::C12::new(),
             c13: c13::C13::new(timers_in_order),
             c19: Default::default(),
+            acct: backlog::Acct::new(codec, arm.c15, arm.c16),
+            hcfg,
             shadow_broken: false,
+            unarmed: vec![],
         }
     }
 
@@ -79,9 +90,10 @@ impl Watch {
         match v {
             Ok(()) => Ok(()),
             Err(e) if armed => Err(e),
-            Err(_) => {
+            Err(e) => {
                 // not this check's property: remember that shadows may be off
                 self.shadow_broken = true;
+                self.unarmed.push(e.rule);
                 Ok(())
             }
         }
@@ -154,6 +166,11 @@ impl Watch {
         run!(self.arm.c11, |a: &mut Acc| self.c11.on(rec, epoch_pre, codec, a));
         run!(self.arm.c12, |a: &mut Acc| self.c12.on(rec, &pres, conn_pre, conn_post, epoch_pre, codec, a));
         run!(self.arm.c19, |a: &mut Acc| self.c19.on(rec, &ch, codec, a));
+        if self.arm.c15 || self.arm.c16 {
+            let hcfg = self.hcfg;
+            let v = self.acct.on(rec, &pres, codec, &hcfg, acc);
+            self.gate(true, v)?;
+        }
         Ok(())
     }
 }
